@@ -2,6 +2,7 @@
 import json,sys
 pid=sys.argv[1]
 n=int(sys.argv[2]) if len(sys.argv)>2 else 2
+start=int(sys.argv[3]) if len(sys.argv)>3 else 1
 for l in open('/verif/properties.jsonl'):
     p=json.loads(l)
     if p['id']==pid: break
@@ -24,7 +25,7 @@ Task: produce {n} DIFFERENT, independent changes ("seeded defects") to the libra
   (c) is realistic - something a maintainer could plausibly write in a refactoring or a "small improvement" - and is SUBTLE: it needs something specific to manifest (an unusual input, a particular combination of configuration values, a multi-step sequence of operations, a boundary value, or two cooperating sites that each look fine alone). Do not write changes that ordinary use would expose at once, and do not touch test files, go.mod, or comments only.
 Each change should be small (typically 1-10 changed lines) and confined to the anchored files or their direct helpers.
 
-For EACH change deliver, under /tmp/wt/{pid}/seeded/<k>/ (k = 1..{n}):
+For EACH change deliver, under /tmp/wt/{pid}/seeded/<k>/ (k = {start}..{start+n-1}):
   - patch.diff : `git diff` of the change against the worktree HEAD (only the library change, not the demo). It must apply with `git apply` to a clean checkout.
   - demo_test.go : a Go test file (state in a first-line comment which package directory it must be copied into, e.g. `// copy to: pkg/versions/1_0/operationapplier/zz_demo_test.go`) containing one test function that FAILS with the change applied and PASSES on the unchanged code. It should demonstrate the property violation through the library's public or package-level API (in-package tests may use unexported functions).
   - meta.json : {{"property": "{pid}", "summary": "...what was changed...", "needs_to_manifest": "...what specific input/sequence/config is needed...", "files": [...], "demo_cmd": "go test ... -run ..."}}
